@@ -180,6 +180,27 @@ func genC04(w *World, res *CheckResult) {
 		tmp := &CheckResult{Extra: map[string]interface{}{}}
 		genC17(w, tmp)
 		res.Obls = append(res.Obls, selectObls(tmp.Obls, `^conf\.Config\.Check/loop:1/body\[well-shaped\]$`, `^conf\.Config\.Check/loop:1/inv-`)...)
+		// the resolution itself runs outside any recover (checker.BinaryNode, PatchOperators) on operand types that may
+		// be nil: its contract (a nil operand type fits only through the nil guards, never through Implements/
+		// AssignableTo called on it) is part of "Compile returns an error or a program" (shared with C17)
+		res.Obls = append(res.Obls, selectObls(tmp.Obls, `^conf\.FindSuitableOperatorOverload/`)...)
+		res.Functions = append(res.Functions, "conf.FindSuitableOperatorOverload")
+	}
+	// (1g) jump offsets: a jump that does not fit its 16-bit operand is a compile error (a panic inside Compile's
+	// recover), never a wrapped offset - a wrapped backward jump is a program that does not terminate (shared with C05)
+	for _, n := range []string{"compiler.compiler.patchJump", "compiler.compiler.calcBackwardJump"} {
+		fn, ct := w.Func(n), w.Contracts[n]
+		if fn == nil || ct == nil {
+			res.Obls = append(res.Obls, missingObl(n+"/exists", "function or contract missing"))
+			continue
+		}
+		e := NewExec(w)
+		w.forceInline[n] = true
+		e.VerifyFunc(fn, ct, nil)
+		delete(w.forceInline, n)
+		res.Obls = append(res.Obls, e.obls...)
+		res.Assumptions = append(res.Assumptions, e.Notes()...)
+		res.Functions = append(res.Functions, n)
 	}
 	// (2) every node kind has a case in the type switches that run outside a recover
 	genSwitchCoverage(w, res, "checker.visitor.visit", 1)
